@@ -239,5 +239,54 @@ CHECKS["C02"]["quick"] = CHECKS["C02"]["quick"] + G_LOCKS[:1]
 CHECKS["C02"]["thorough"] = CHECKS["C02"]["thorough"] + G_LOCKS[1:] + S_RACE[:3]
 CHECKS["C02"]["bounds"] += "; the dispatch_tx lock is held at every enqueue (probe), which with FIFO gives a total order extending program order and real-time order (argument)"
 
-HOOK_COMMITS = ["da8b80e", "8cd617e"]
+def _ui(n, what, bounds, **kw):
+    return H("u_iter::" + n, what, bounds, timeout_s=kw.pop("timeout_s", 600), **kw)
+
+def _gn(n, what, bounds, **kw):
+    return H("g_notify::" + n, what, bounds, timeout_s=kw.pop("timeout_s", 900), **kw)
+
+IS = "@store_impl::verif_kani_in_store::"
+def _is(n, what, bounds, **kw):
+    return H(IS + n, what, bounds, timeout_s=kw.pop("timeout_s", 600), **kw)
+
+_W_IT = "REAL StateIteratorSubscriber::{on_notify,on_unsubscribe} (producer, reducer context) and StateIterator::{next,drop} (consumer) over the real capacity-1 BlockOnFull BackpressureChannel, concretely typed; a producer blocked on the full queue is served by one consumer step; notification data symbolic; oracle: every pair once, in order, then None, then None again; exhausted/dropped iterator unsubscribes"
+U_ITER_Q = [_ui("iter_unit_n1", _W_IT, "1 notification"), _ui("iter_unit_n2", _W_IT, "2 notifications (second one blocks until the consumer reads)"), _ui("iter_unit_n3_early", _W_IT, "3 notifications, consumer reads one early"), _ui("iter_unit_drop_fresh", _W_IT, "drop of an unused iterator"), _ui("iter_unit_drop_after_read", _W_IT, "drop after the only pair was read")]
+U_ITER_T = [_ui("iter_unit_n0", _W_IT, "no notification"), _ui("iter_unit_n2_early", _W_IT, "2 notifications, early read"), _ui("iter_unit_n3", _W_IT, "3 notifications")]
+U_ITER_TWIN = [_ui("twin_u_iter", "vacuity twin", "", role="twin")]
+W_ITER = [_gn("wire_iter_h", "StoreImpl::iter() builds exactly that: one capacity-1 queue, one registered subscriber that forwards with a blocking send", "")]
+W_ITER_T = [_gn("iter_drop_empty", "through the store: drop(iter) detaches it, later notifications reach the other subscribers only, store keeps working until stop()", "2 actions, loop with real do_notify", timeout_s=1200, mem_gb=16)]
+KF_ITER = "C13-iterator-dropped-with-unread-item-blocks-forever"
+WIT_ITER = [_ui("iter_unit_drop_unread_witness", "KNOWN-FINDING witness: drop(iterator) while its capacity-1 queue holds an unread pair: on_unsubscribe's blocking send of the end marker can never complete (the sender's own receiver clone keeps the queue connected)", "1 unread pair", role="witness", known_finding=KF_ITER)]
+WIT_ITER_T = [_gn("iter_client_drop_unread_witness", "the same through StoreImpl::iter() and the store's subscription closure", "", role="witness", known_finding=KF_ITER, timeout_s=900)]
+
+CHECKS["C14"] = {
+    "bounds": "0..3 notifications with symbolic (state, action); consumer reads late (after shutdown) or one pair early; store shutdown = release of the iterator's subscriber; drop of a fresh / fully-read iterator",
+    "outside": "the reducer loop and do_notify in front of the iterator's subscriber are covered by U-notify / G-fold, not composed here by the tool; iterators created while actions are in flight; more than 3 pairs; iter_with() with other policies (crate-private, unused); drop with an unread pair is the C13 known finding",
+    "assumptions": ["producer and consumer alternate at channel operations only (a blocked send is served by exactly one next())"],
+    "quick": U_ITER_Q + W_ITER + U_ITER_TWIN,
+    "thorough": U_ITER_T + W_ITER_T,
+}
+_W_CS = "REAL ChanneledSubscriber::{on_notify,on_unsubscribe,unsubscribe,clear_resource} and StoreImpl::subscribed_loop, concretely typed (hook H5), real BackpressureChannel with the subscription's policy, modelled delivery thread that runs when joined (starved consumer); notification data symbolic; oracle: nothing delivered in the reducer context, drop policies never block, everything queued is delivered in order on the subscriber's thread before the release returns, nothing afterwards, released once"
+IN_STORE_Q = [_is("chan_sub_block_n2_cap2", _W_CS, "BlockOnFull, 2 notifications, capacity 2, release by store shutdown"), _is("chan_sub_oldest_n2_cap1", _W_CS, "DropOldest, 2 notifications, capacity 1: the newest is delivered"), _is("chan_sub_latest_n3_cap2_unsub", _W_CS, "DropLatest, 3 notifications, capacity 2, release by unsubscribe()"), _is("chan_sub_block_n0", _W_CS, "no notification, unsubscribe()")]
+IN_STORE_T = [_is("chan_sub_block_n3_cap3_unsub", _W_CS, "BlockOnFull, 3 notifications"), _is("chan_sub_oldest_n3_cap2_unsub", _W_CS, "DropOldest, 3 notifications, capacity 2"), _is("chan_sub_latest_n2_cap1", _W_CS, "DropLatest, capacity 1")]
+IN_STORE_TWIN = [_is("twin_in_store", "vacuity twin", "", role="twin")]
+_W_WCS = "StoreImpl::subscribed_with()/subscribed() build exactly that: one queue of the requested capacity and policy, one delivery thread, one registered forwarding subscriber that only enqueues"
+W_CHSUB = [_gn("wire_chsub_block", _W_WCS, "capacity 2, BlockOnFull", mem_gb=24, timeout_s=1200), _gn("wire_subscribed", _W_WCS, "subscribed(): default capacity")]
+W_CHSUB_T = [_gn("wire_chsub_oldest", _W_WCS, "capacity 1, DropOldest", mem_gb=24, timeout_s=1200), _gn("wire_chsub_latest", _W_WCS, "capacity 3, DropLatest", mem_gb=24, timeout_s=1200)]
+CHECKS["C10"] = {
+    "bounds": "0..3 notifications, capacity 1..3, all three policies, release by unsubscribe() and by store shutdown, starved consumer (the delivery thread runs when it is joined)",
+    "outside": "PARTIAL CLAIM: schedules in which the delivery thread consumes WHILE the reducer keeps producing (a BlockOnFull queue smaller than the backlog, partial consumption under a drop policy) need two suspended loops and cannot be expressed in the sequentialisation; the do_notify loop in front of the forwarding subscriber is covered by U-notify, not composed by the tool",
+    "assumptions": ["std::thread is modelled: spawn defers the closure, join runs it to completion"],
+    "quick": IN_STORE_Q + W_CHSUB + IN_STORE_TWIN,
+    "thorough": IN_STORE_T + W_CHSUB_T,
+}
+CHECKS["C13"] = {
+    "bounds": "obligations decided in the sequentialised model: (a) no lock() on a mutex already held by a suspended context and no blocking channel operation that nothing can unblock, in the loop-level, iterator and channeled-subscriber scenarios; (b) no store lock held while stop() joins the pool, sender lock held at every enqueue (probes); (c) every scripted call returns",
+    "outside": "PARTIAL CLAIM: deadlocks that need two client threads suspended in mid-call; anything inside crossbeam's parking or rusty_pool's condvar/join generations; completion 'rather than by timeout' (no clock); programs of 2-4 client threads with more than one call placed inside the loop",
+    "assumptions": [_SEQ_ASSUME, "Mutex::lock is stubbed by try_lock: a held mutex met by the running context is reported as deadlock (or 'not enabled here' for a schedule-placed call)"],
+    "quick": G_LOCKS[:2] + G_FOLD_Q[:1] + U_ITER_Q[1:3] + IN_STORE_Q[:2] + WIT_ITER + U_ITER_TWIN + IN_STORE_TWIN,
+    "thorough": G_LOCKS[2:] + S_RACE[:4] + U_SUBS_Q[:1] + WIT_ITER_T,
+}
+
+HOOK_COMMITS = ['da8b80e', '8cd617e', '39efd23']
 NOT_APPLICABLE = {}
